@@ -3,6 +3,7 @@ import json
 import os
 import subprocess
 import sys
+import resource
 import threading
 import time
 
@@ -14,6 +15,15 @@ REPLAYS = os.environ.get("VERIF_REPLAY_DIR") or os.path.join(VERIF, "replays")
 KNOWN = os.path.join(VERIF, "known_findings.json")
 
 NCPU = os.cpu_count() or 8
+
+
+def _limits():
+    """Workers get a 2 MiB stack: unbounded recursion in the library then overflows within a second or two
+    instead of grinding through 8 MiB of frames that each run SQL."""
+    try:
+        resource.setrlimit(resource.RLIMIT_STACK, (2 * 1024 * 1024, resource.getrlimit(resource.RLIMIT_STACK)[1]))
+    except Exception:
+        pass
 
 # ---------------------------------------------------------------------------
 # Per-property configuration.  Each entry of "quick"/"thorough" is
@@ -126,7 +136,7 @@ prop("C03", "exploration",
      assumptions=["gap (stated in DESIGN): 1.x codec values no public call can construct (default != adjusted grid, is_adjusted "
                   "combinations) are not generated"])
 prop("C14", "fault_enumeration",
-     quick=[("atomic", "fast", 320)],
+     quick=[("atomic", "fast", 900)],
      thorough=[("atomic", "fast", 12000), ("atomic", "san", 400)],
      relevant=["atomic_pairs"],
      rule="each run = (pre-state S from a seeded fault-free history on an on-disk library, one public mutating call); the call is "
@@ -240,7 +250,7 @@ class Serve:
 
     def start(self):
         self.p = subprocess.Popen([V.binary(self.variant), "serve"], stdin=subprocess.PIPE,
-                                  stdout=subprocess.PIPE, stderr=subprocess.PIPE, text=True, bufsize=1)
+                                  stdout=subprocess.PIPE, stderr=subprocess.PIPE, text=True, bufsize=1, preexec_fn=_limits)
 
     def run(self, plan, trace=False):
         self.execs += 1
@@ -311,7 +321,7 @@ def sweep(profile, variant, runs, seed, collector, workers=None):
             count = (runs - nxt + workers - 1) // workers
             p = subprocess.Popen([V.binary(variant), "sweep", "--profile", profile, "--seed", str(seed),
                                   "--start", str(nxt), "--count", str(count), "--stride", str(workers)],
-                                 stdout=subprocess.PIPE, stderr=subprocess.PIPE, text=True)
+                                 stdout=subprocess.PIPE, stderr=subprocess.PIPE, text=True, preexec_fn=_limits)
             cur = None
             done = False
             for line in p.stdout:
@@ -473,9 +483,14 @@ def minimise(serve, plan, key, profile, budget=300):
     """ddmin over steps, then drop faults / shrink sizes.  Keeps `key` firing."""
     steps = plan["steps"]
     used = 0
+    t_start = time.time()
+    wall_cap = float(os.environ.get("VERIF_MINIMISE_WALL", "90"))
 
     def test(cand):
         nonlocal used
+        if time.time() - t_start > wall_cap:
+            used = budget  # candidates that hang until the watchdog fires are expensive: stop shrinking, keep what we have
+            return False
         used += 1
         p = dict(plan)
         p["steps"] = cand
@@ -531,7 +546,7 @@ def minimise(serve, plan, key, profile, budget=300):
 def fresh_replay(variant, path):
     """Execute a replay file in a fresh process; return list of keys fired."""
     r = subprocess.run([V.binary(variant), "exec", "--plan", path], stdout=subprocess.PIPE,
-                       stderr=subprocess.PIPE, text=True)
+                       stderr=subprocess.PIPE, text=True, preexec_fn=_limits)
     data = json.load(open(path))
     profile = data.get("profile", "")
     for line in r.stdout.splitlines():
